@@ -207,3 +207,60 @@ Proof.
     split; [congruence|]. exists m2. split; [exact L2|]. exists (d2 ++ d1). split; [rewrite D2, D1, app_assoc; reflexivity|].
     cbn [app] in *. rewrite !app_nil_r in *. rewrite app_assoc. rewrite P2. exact P1.
 Qed.
+
+(* the entry API: every case conserves (an offered value that is not stored is destroyed; a replaced or removed
+   value is handed back) *)
+Definition entry_ins (ms : mstore) (o : entry_op) : list N :=
+  match o with EnOrInsert v | EnReplace v => [fst (tnorm ms v)] | _ => [] end.
+Definition entry_rets (o : entry_op) (r : entry_res) : list N :=
+  match o, r with
+  | EnReplace _, EnTok t | EnRemove, EnTok t => [fst t]
+  | _, _ => []
+  end.
+
+Theorem entry_conserves ms m av e o c : LInvS ms m ->
+  let '(ms', r, c') := st_entry ms av e o c in
+  exists m', LInvS ms' m' /\ cx_stuck c' = cx_stuck c /\ conserves m m' (entry_ins ms o) (entry_rets o r) c c'.
+Proof.
+  intros HL. pose proof (LS_inv _ _ HL) as HM. unfold st_entry. cbv zeta.
+  assert (forall v, tnorm ms (tnorm ms v) = tnorm ms v) as Hidem by (intros v; unfold tnorm; destruct (ms_unit ms); reflexivity).
+  destruct (av_alive av e).
+  - destruct (NS.mem (fst e) (ms_mask ms)) eqn:Hmem.
+    + destruct (keys_find_some _ _ _ (MI_keys _ _ HM) Hmem) as [t Hf].
+      destruct o as [|v|v| |z]; cbn [entry_ins entry_rets].
+      * rewrite (u_get_ref _ m (fst e) t c (MI_rel _ _ HM) Hf). exists m. split; [exact HL|]. split; [reflexivity|apply conserves_nothing].
+      * pose proof (access_conserves ms m (fst e) t false UNone c HL Hf I) as X.
+        destruct (w_access_mut ms (fst e) false UNone c) as [[ms' old] c']. destruct X as [-> [-> [m' [L' [_ P]]]]].
+        exists m'. split; [exact L'|]. split; [reflexivity|]. exists [fst (tnorm ms v)]. split; [reflexivity|].
+        cbn [uid_of_upd] in P. rewrite !app_nil_r in P. cbn [app]. rewrite P. reflexivity.
+      * pose proof (access_conserves ms m (fst e) t true (USwap (tnorm ms v)) c HL Hf (eq_sym (Hidem v))) as X.
+        destruct (w_access_mut ms (fst e) true (USwap (tnorm ms v)) c) as [[ms' old] c']. destruct X as [-> [-> [m' [L' [_ P]]]]].
+        exists m'. split; [exact L'|]. split; [reflexivity|]. exists []. split; [reflexivity|]. rewrite app_nil_r. exact P.
+      * pose proof (remove_conserves ms m (fst e) c HL) as X. destruct (m_remove ms (fst e) c) as [[ms' o'] c'].
+        destruct X as [X1 [D [S [m' [L' P]]]]]. exists m'. split; [exact L'|]. split; [exact S|].
+        exists []. split; [rewrite D; reflexivity|]. rewrite !app_nil_r. destruct o'; exact P.
+      * pose proof (access_conserves ms m (fst e) t true (USetVal z) c HL Hf I) as X.
+        destruct (w_access_mut ms (fst e) true (USetVal z) c) as [[ms' old] c']. destruct X as [-> [-> [m' [L' [_ P]]]]].
+        exists m'. split; [exact L'|]. split; [reflexivity|]. exists []. split; [reflexivity|].
+        cbn [uid_of_upd] in P. rewrite !app_nil_r in *. exact P.
+    + destruct o as [|v|v| |z]; cbn [entry_ins entry_rets];
+        try (exists m; split; [exact HL|]; split; [reflexivity | apply conserves_nothing]).
+      * destruct (npi_conserves ms m (fst e) v c HL Hmem) as [D [S [L' P]]].
+        destruct (not_present_insert ms (fst e) (tnorm ms v) c) as [ms1 c1]. cbn [fst snd] in *.
+        assert (NM.find (fst e) (NM.add (fst e) (tnorm ms v) m) = Some (tnorm ms v)) as Hf1 by (rewrite find_add; destruct (N.eq_dec (fst e) (fst e)); [reflexivity|congruence]).
+        pose proof (access_conserves ms1 _ (fst e) (tnorm ms v) false UNone c1 L' Hf1 I) as X.
+        destruct (w_access_mut ms1 (fst e) false UNone c1) as [[ms2 old] c2]. destruct X as [-> [-> [m' [L2 [_ P2]]]]].
+        exists m'. split; [exact L2|]. split; [exact S|]. exists []. split; [rewrite D; reflexivity|].
+        cbn [uid_of_upd] in P2. rewrite !app_nil_r in *. rewrite P2, P. rewrite Permutation_app_comm. reflexivity.
+      * destruct (npi_conserves ms m (fst e) v c HL Hmem) as [D [S [L' P]]].
+        destruct (not_present_insert ms (fst e) (tnorm ms v) c) as [ms1 c1]. cbn [fst snd] in *.
+        assert (NM.find (fst e) (NM.add (fst e) (tnorm ms v) m) = Some (tnorm ms v)) as Hf1 by (rewrite find_add; destruct (N.eq_dec (fst e) (fst e)); [reflexivity|congruence]).
+        pose proof (access_conserves ms1 _ (fst e) (tnorm ms v) false UNone c1 L' Hf1 I) as X.
+        destruct (w_access_mut ms1 (fst e) false UNone c1) as [[ms2 old] c2]. destruct X as [_ [-> [m' [L2 [_ P2]]]]].
+        exists m'. split; [exact L2|]. split; [exact S|]. exists []. split; [rewrite D; reflexivity|].
+        cbn [uid_of_upd] in P2. rewrite !app_nil_r in *. rewrite P2, P. rewrite Permutation_app_comm. reflexivity.
+  - destruct o as [|v|v| |z]; cbn [entry_ins entry_rets];
+      try (exists m; split; [exact HL|]; split; [reflexivity | apply conserves_nothing]).
+    + exists m. split; [exact HL|]. split; [reflexivity|]. exists [fst (tnorm ms v)]. split; [reflexivity|]. cbn [app]. apply Permutation_refl.
+    + exists m. split; [exact HL|]. split; [reflexivity|]. exists [fst (tnorm ms v)]. split; [reflexivity|]. cbn [app]. apply Permutation_refl.
+Qed.
